@@ -111,6 +111,7 @@ int arena_check_canaries(void)
     int i, ok = 1;
     for (i = 0; i < nrecs; ++i)
         if (recs[i].live) { recs[i].canary_ok = canaries_ok(i); ok &= recs[i].canary_ok; }
+        else if (recs[i].freed && !recs[i].canary_ok) ok = 0;     /* found damaged when it was released (checked in free) */
     return ok;
 }
 
